@@ -12,7 +12,7 @@ Leg S2C / C2S : as C04, other seeds; element runs (real Allocator -> ClientAlloc
           runs: such a runner that does not complete within the iterations must not change anything; one that completes early ends
           the task (then: at most warmup+iterations requests, last progress 1).
 """
-from .. import clientloop
+from .. import clientloop, driverprogress
 
 PID = "C05"
 PREFIX = "C05_"
@@ -33,6 +33,10 @@ def run(ctx, out):
         "the weight in 'weight*C/T apart' is the weight, in the unit of the target throughput, of the latest successful request (a runner unit differing from an ops/s target counts as 1 op); "
         "until the first successful request the task runs unthrottled (all scheduled times 0): named in the model, no spacing demanded",
         "ramp-up is only combined with time-based tasks and ramp-up <= warm-up period (enforced by the track loader); iteration counts are exact unless the task is completed externally (then: at most) or aborted by the unit check",
+        "driver-reported progress (Driver.update_progress_message): judged per task - within [0,100], never decreasing within one task, never above the most advanced sample of that task the driver has received; "
+        "the executed histories keep the clients of a task in lockstep (equal speed; workers and the driver wake up at unrelated moments): with clients of DIFFERENT speed the code as it is "
+        "lets the message drop when a slower client reports for the first time (the mean is taken over the clients that have reported so far) - kept in DriverProgress.tla as the environment switch EqualSpeed "
+        "(DriverProgress.pinned.speed.cfg violates ReportProperties in the model); samples-per-task counts are powers of two so that the float mean and Python's round-half-even are exact",
         "tick-exact runs use dyadic parameters so that float arithmetic is exact; millisecond runs with non-dyadic parameters are rounded to 1 ms and checked with L1 only, tolerance 3 ms; the Poisson distribution itself is not checked (increments are scripted)",
         "client i / total of the ramp-up clause: i = position of the client among all clients of the schedule element (clients of the preceding sub-tasks + index in its own sub-task), total = clients of the element; ramp-up is not combined with over-committed elements",
         "runner completion API: completed becomes true at the runner's k-th call, percent_completed stays None; loop controls with an unbounded iteration count (parameter source or runner alone decides the end), runner-provided progress values and cancellation are outside the model",
@@ -59,5 +63,11 @@ def run(ctx, out):
             out.vacuous.append("no executed run exercised: " + key)
 
 
+    # ---- the progress the DRIVER reports from those samples (real Driver fed like DriverActor feeds it)
+    driverprogress.run_leg(ctx, out)
+
+
 def replay(ctx, case):
+    if "progress_history" in case:
+        return driverprogress.replay(ctx, case["progress_history"], PID)
     return clientloop.replay(ctx, case, PID, PREFIX)
